@@ -44,7 +44,17 @@ func akSchema(impl string) *jsonapi.Schema {
 	if s, ok := akSchemas[impl]; ok {
 		return s
 	}
+	s := buildAkSchema(impl, false)
+	akSchemas[impl] = s
+	return s
+}
+
+// buildAkSchema: a schema of its own; withSpare puts a type in front that the caller may remove later
+func buildAkSchema(impl string, withSpare bool) *jsonapi.Schema {
 	s := &jsonapi.Schema{}
+	if withSpare {
+		must(s.AddType(jsonapi.Type{Name: "aa0"}))
+	}
 	if impl == "wrap" || impl == "wrap2" {
 		// wrap2: the same type name over a struct whose fields are declared in the opposite order
 		typ, err := jsonapi.BuildType(reflect.New(structType("ak", allKindsFields(), kindMap{Rev: impl == "wrap2"})).Interface())
@@ -61,7 +71,6 @@ func akSchema(impl string) *jsonapi.Schema {
 		must(err)
 		must(s.AddType(typ3))
 	}
-	akSchemas[impl] = s
 	return s
 }
 
@@ -1269,7 +1278,7 @@ type colEvent struct {
 
 func runColPayload(c colCase) colEvent {
 	ev := colEvent{Ev: "colpayload", Impl: c.Impl, Via: c.Via, N: len(c.Types)}
-	schema := akSchema(c.Impl)
+	schema := buildAkSchema(c.Impl, true)
 	var members []string
 	for i, t := range c.Types {
 		switch t {
@@ -1305,6 +1314,9 @@ func runColPayload(c colCase) colEvent {
 	}
 	ev.Out = "accept"
 	p, _ = catch(func() {
+		// what was read is the caller's: a later edit of the schema (a type nobody uses goes away)
+		// does not reach into it
+		schema.RemoveType("aa0")
 		ev.CountSame = col.Len() == len(c.Types)
 		ev.TypesSame, ev.IDsSame, ev.ValsSame = true, true, true
 		for i, t := range c.Types {
